@@ -153,30 +153,111 @@ by [].
 Qed.
 
 
+(* ---------------------------------------------------------------- the stored factors: unit lower triangular L *)
+Definition Lv i (A : seq (seq F)) : 'M[F]_n := \matrix_(k, j) if (j < i)%N && (j < k)%N then get A k j else (k == j)%:R.
+
+Lemma tperm_mx_sq (a b : 'I_n) : tperm_mx a b *m tperm_mx a b = 1%:M :> 'M[F]_n.
+Proof. by rewrite /tperm_mx -perm_mxM tperm2 perm_mx1. Qed.
+
+Lemma Lv_swap i im (Hi : (i < n)%N) (Him : (im < n)%N) A : (i <= im)%N ->
+  Lv i (c02_swaprows A i im) = xrow (Ordinal Hi) (Ordinal Him) (xcol (Ordinal Hi) (Ordinal Him) (Lv i A)).
+Proof.
+move=> Hle; apply/matrixP => k j; rewrite !mxE get_swaprows (inj_eq perm_inj).
+pose sg (x : nat) := if x == i then im else if x == im then i else x.
+have sgE (x : 'I_n) : tperm (Ordinal Hi) (Ordinal Him) x = sg x :> nat.
+  by rewrite permE /= -!val_eqE /= /sg; case: ifP => _ //; case: ifP.
+have sgE' (x : nat) : (if x == im then i else if x == i then im else x) = sg x.
+  by rewrite /sg; case: (altP (x =P i)) => [->|Ni]; case: (altP (x =P im)) => [E|Nm] //=; case: ifP => // /eqP.
+rewrite !sgE sgE'.
+case: (ltnP j i) => Hji /=.
+  have sgj : sg j = j.
+    rewrite /sg; have -> : ((j : nat) == i) = false by lia.
+    by have -> : ((j : nat) == im) = false by lia.
+  have sgk : (j < sg k)%N = (j < k)%N.
+    by rewrite /sg; case: ifP => [/eqP ->|_]; [lia|case: ifP => [/eqP ->|//]; lia].
+  by rewrite sgj Hji sgk.
+have -> : (sg j < i)%N = false.
+  by rewrite /sg; case: ifP => _; [lia|case: ifP => _; lia].
+by [].
+Qed.
+
+Lemma Lv_elim i A : wfm n A ->
+  Lv i.+1 (c02_eliminate ops n A i) = Lv i A + Nmx i (fun k => get (c02_eliminate ops n A i) k i).
+Proof.
+move=> wA; apply/matrixP => k j; rewrite !mxE.
+case: (ltnP j i) => Hji /=.
+  have -> : (j < i.+1)%N by lia.
+  have -> : ((j : nat) == i) = false by lia.
+  rewrite andbF addr0 /=; case: ifP => // Hjk.
+  by rewrite get_eliminate //; case: ifP => // _; rewrite Hji.
+case: (altP ((j : nat) =P i)) => [Hj|Hne].
+  rewrite Hj ltnSn /= andbT; case: ifP => Hik; last by rewrite addr0.
+  have -> : (k == j) = false by apply/negbTE; rewrite -val_eqE /= Hj; lia.
+  by rewrite add0r.
+have -> : (j < i.+1)%N = false by lia.
+by rewrite andbF addr0.
+Qed.
+
+Lemma Nmx_sq i (Hi : (i < n)%N) f g : Nmx i f *m Nmx i g = 0.
+Proof.
+apply/matrixP => k j; rewrite (Nmx_mul Hi) !mxE /= ltnn /=.
+by case: ifP => // _; rewrite mulr0.
+Qed.
+
+Lemma Lv_Nmx i (Hi : (i < n)%N) A f : Lv i A *m Nmx i f = Nmx i f.
+Proof.
+apply/matrixP => k j; rewrite [RHS]mxE mxE.
+case: (altP ((j : nat) =P i)) => [Hj|Hne]; last first.
+  by rewrite andbF big1 // => m _; rewrite !mxE (negbTE Hne) andbF mulr0.
+rewrite andbT (bigD1 k) //= big1 ?addr0; last first.
+  move=> m Hm; rewrite !mxE Hj eqxx andbT.
+  case: (ltnP i m) => Him; last by rewrite mulr0.
+  have -> : (m < i)%N = false by lia.
+  by rewrite /= eq_sym (negbTE Hm) mul0r.
+rewrite !mxE ltnn andbF eqxx mul1r Hj eqxx andbT.
+by [].
+Qed.
+
+Lemma LvE i (Hi : (i < n)%N) A f : (Lv i A + Nmx i f) *m Emx i f = Lv i A.
+Proof.
+rewrite /Emx mulmxBr mulmx1 mulmxDl (Lv_Nmx Hi) (Nmx_sq Hi) addr0.
+by rewrite addrK.
+Qed.
+
 (* ---------------------------------------------------------------- the LU loop invariant, generic in the functor *)
 Section Loop.
 Variable S : Type.
 Variable func : c02_func F S.
-(* R G s: the functor state s reflects the accumulated row operations G *)
-Variable R : 'M[F]_n -> S -> Prop.
-Hypothesis Rswap : forall G s i im (Hi : (i < n)%N) (Him : (im < n)%N), (i <= im)%N -> R G s ->
-  R (xrow (Ordinal Hi) (Ordinal Him) G) (fswap func i im s).
-Hypothesis Relim : forall G s i f, (i < n)%N -> R G s ->
-  R (Emx i f *m G) (foldl (fun s k => felim func (f k) k i s) s (iota i.+1 (n - i.+1))).
+(* Rpre i G P s: at the head of iteration i the functor state s reflects the accumulated row operations G and the
+   accumulated row permutation P; Rpost i: the same after the swap of iteration i *)
+Variable Rpre Rpost : nat -> 'M[F]_n -> 'M[F]_n -> S -> Prop.
+Hypothesis Rswap : forall G P s i im (Hi : (i < n)%N) (Him : (im < n)%N), (i <= im)%N -> Rpre i G P s ->
+  Rpost i (xrow (Ordinal Hi) (Ordinal Him) G) (xrow (Ordinal Hi) (Ordinal Him) P) (fswap func i im s).
+Hypothesis Rskip : forall G P s i, (i < n)%N -> Rpre i G P s -> Rpost i G P s.
+Hypothesis Relim : forall G P s i f, (i < n)%N -> Rpost i G P s ->
+  Rpre i.+1 (Emx i f *m G) P (foldl (fun s k => felim func (f k) k i s) s (iota i.+1 (n - i.+1))).
 Variable A0 : 'M[F]_n.
 
-Definition inv i (st : seq (seq F) * S) :=
+(* U_i = G * A0 (G: the row operations so far, invertible) and L_i * G = P (P: the row permutation so far),
+   hence L_i * U_i = P * A0 *)
+Definition invg (Rx : 'M[F]_n -> 'M[F]_n -> S -> Prop) i (st : seq (seq F) * S) :=
   [/\ wfm n st.1, (forall k, (k < i)%N -> get st.1 k k != 0)
-    & exists G, [/\ G \in unitmx, Uv i st.1 = G *m A0 & R G st.2]].
+    & exists G P, [/\ G \in unitmx, Uv i st.1 = G *m A0, Lv i st.1 *m G = P & Rx G P st.2]].
+Definition inv i := invg (Rpre i) i.
+
+Lemma invg_weaken (Rx Ry : 'M[F]_n -> 'M[F]_n -> S -> Prop) i st :
+  (forall G P s, Rx G P s -> Ry G P s) -> invg Rx i st -> invg Ry i st.
+Proof. by move=> H [wA Hd [G [P [uG UG LG RG]]]]; split=> //; exists G, P; split=> //; apply: H. Qed.
 
 Definition step_post (piv : bool) i (r : c02_lures (seq (seq F) * S)) :=
   match r with
   | C02_LU_Ok st' => inv i.+1 st'
-  | C02_LU_Singular st' => [/\ inv i st', get st'.1 i i = 0 & piv -> forall k, (i <= k < n)%N -> get st'.1 k i = 0]
+  | C02_LU_Singular st' => [/\ invg (fun _ _ _ => True) i st', get st'.1 i i = 0
+                             & piv -> forall k, (i <= k < n)%N -> get st'.1 k i = 0]
   | C02_LU_DivByZero => False
   end.
 
-Lemma lu_step_tail (piv : bool) i A1 s1 : (i < n)%N -> inv i (A1, s1) ->
+Lemma lu_step_tail (piv : bool) i A1 s1 : (i < n)%N -> invg (Rpost i) i (A1, s1) ->
   (get A1 i i = 0 -> piv -> forall k, (i <= k < n)%N -> get A1 k i = 0) ->
   step_post piv i
    (if oabsz ops (get A1 i i) then C02_LU_Singular (A1, s1)
@@ -185,53 +266,59 @@ Lemma lu_step_tail (piv : bool) i A1 s1 : (i < n)%N -> inv i (A1, s1) ->
                     foldl (fun s k => felim func (get (c02_eliminate ops n A1 i) k i) k i s) s1 (iota i.+1 (n - i.+1)))).
 Proof.
 move=> Hi Hinv Hcol; rewrite /= absr0.
-case: (altP (get A1 i i =P 0)) => [H0|Hnz] /=; first by split=> //; apply: Hcol.
+case: (altP (get A1 i i =P 0)) => [H0|Hnz] /=.
+  by split=> //; [apply: invg_weaken Hinv|apply: Hcol].
 rewrite andbF /=.
-case: Hinv => /= wA Hd [G [uG UG RG]]; split=> /=.
+case: Hinv => /= wA Hd [G [P [uG UG LG RG]]]; split=> /=.
 - exact: wfm_eliminate.
 - move=> k Hk; have Hkn : (k < n)%N by lia.
   rewrite get_eliminate //; have -> : (i < k)%N = false by lia.
   by case: (k =P i) => [->//|Hne]; apply: Hd; lia.
-- exists (Emx i (fun k => get (c02_eliminate ops n A1 i) k i) *m G); split.
+- exists (Emx i (fun k => get (c02_eliminate ops n A1 i) k i) *m G), P; split.
   + by rewrite unitmx_mul unit_Emx.
   + by rewrite (Uv_elim Hi) // UG mulmxA.
+  + by rewrite Lv_elim // mulmxA (LvE Hi).
   + exact: Relim.
 Qed.
 
 Lemma lu_step_inv piv i st : (i < n)%N -> inv i st -> step_post piv i (c02_lu_step ops func n piv i st).
 Proof.
 case: st => A s Hi Hinv; rewrite /c02_lu_step.
-case: piv; last by apply: lu_step_tail.
-case: (pivsearch_spec A Hi) => /=; set im := (c02_pivsearch ops n A i).2 => Hpm /andP [Hle Him] Hmax.
-apply: lu_step_tail => //.
-- case: Hinv => /= wA Hd [G [uG UG RG]]; split=> /=.
-  + exact: wfm_swaprows.
-  + move=> k Hk; rewrite get_swaprows.
-    have -> : (k == im) = false by lia.
-    have -> : (k == i) = false by lia.
-    exact: Hd.
-  + exists (xrow (Ordinal Hi) (Ordinal Him) G); split.
-    * by rewrite xrowE unitmx_mul uG andbT /tperm_mx unitmx_perm.
-    * by rewrite (Uv_swap Hi Him) // UG !xrowE mulmxA.
-    * exact: Rswap.
-- rewrite get_swaprows eqxx; case: (i =P im) => [E|_] Hz _ k Hk.
+case: piv.
+  case: (pivsearch_spec A Hi) => /=; set im := (c02_pivsearch ops n A i).2 => Hpm /andP [Hle Him] Hmax.
+  apply: lu_step_tail => //.
+  - case: Hinv => /= wA Hd [G [P [uG UG LG RG]]]; split=> /=.
+    + exact: wfm_swaprows.
+    + move=> k Hk; rewrite get_swaprows.
+      have -> : (k == im) = false by lia.
+      have -> : (k == i) = false by lia.
+      exact: Hd.
+    + exists (xrow (Ordinal Hi) (Ordinal Him) G), (xrow (Ordinal Hi) (Ordinal Him) P); split.
+      * by rewrite xrowE unitmx_mul uG andbT /tperm_mx unitmx_perm.
+      * by rewrite (Uv_swap Hi Him) // UG !xrowE mulmxA.
+      * rewrite (Lv_swap Hi Him) // !xrowE xcolE -LG -!mulmxA; congr (_ *m (_ *m _)).
+        by rewrite mulmxA tperm_mx_sq mul1mx.
+      * exact: Rswap.
+  - rewrite get_swaprows eqxx; case: (i =P im) => [E|_] Hz _ k Hk.
+      rewrite get_swaprows; apply/eqP; rewrite -absr0 -leqn0.
+      have Hpz : absr (c02_pivsearch ops n A i).1 = 0%N.
+        by apply/eqP; rewrite absr0 Hpm -/im -E Hz.
+      rewrite -Hpz; apply: Hmax.
+      by case: ifP => _; [|case: ifP => _]; lia.
     rewrite get_swaprows; apply/eqP; rewrite -absr0 -leqn0.
     have Hpz : absr (c02_pivsearch ops n A i).1 = 0%N.
-      by apply/eqP; rewrite absr0 Hpm -/im -E Hz.
+      by apply/eqP; rewrite absr0 Hpm -/im Hz.
     rewrite -Hpz; apply: Hmax.
     by case: ifP => _; [|case: ifP => _]; lia.
-  rewrite get_swaprows; apply/eqP; rewrite -absr0 -leqn0.
-  have Hpz : absr (c02_pivsearch ops n A i).1 = 0%N.
-    by apply/eqP; rewrite absr0 Hpm -/im Hz.
-  rewrite -Hpz; apply: Hmax.
-  by case: ifP => _; [|case: ifP => _]; lia.
+apply: lu_step_tail => //.
+by apply: invg_weaken Hinv => G P s'; apply: Rskip.
 Qed.
 
 Definition loop_post (piv : bool) i (r : c02_lures (seq (seq F) * S)) :=
   match r with
   | C02_LU_Ok st' => inv n st'
   | C02_LU_Singular st' => exists2 i', (i <= i' < n)%N &
-      [/\ inv i' st', get st'.1 i' i' = 0 & piv -> forall k, (i' <= k < n)%N -> get st'.1 k i' = 0]
+      [/\ invg (fun _ _ _ => True) i' st', get st'.1 i' i' = 0 & piv -> forall k, (i' <= k < n)%N -> get st'.1 k i' = 0]
   | C02_LU_DivByZero => False
   end.
 
@@ -250,6 +337,26 @@ case: (c02_lu_step ops func n piv i st) => [st'|st'|] //=.
 Qed.
 
 End Loop.
+
+(* the special case of a functor relation that depends neither on the step nor on the permutation *)
+Section Loop1.
+Variable S : Type.
+Variable func : c02_func F S.
+Variable R : 'M[F]_n -> S -> Prop.
+Hypothesis Rswap : forall G s i im (Hi : (i < n)%N) (Him : (im < n)%N), (i <= im)%N -> R G s ->
+  R (xrow (Ordinal Hi) (Ordinal Him) G) (fswap func i im s).
+Hypothesis Relim : forall G s i f, (i < n)%N -> R G s ->
+  R (Emx i f *m G) (foldl (fun s k => felim func (f k) k i s) s (iota i.+1 (n - i.+1))).
+Variable A0 : 'M[F]_n.
+Definition inv1 := invg A0 (fun G (_ : 'M[F]_n) s => R G s).
+Lemma lu_loop_inv1 piv len i st : (i + len = n)%N -> inv1 i st ->
+  loop_post (fun _ G (_ : 'M[F]_n) s => R G s) A0 piv i (c02_lu_loop ops func n piv (iota i len) st).
+Proof.
+apply: (@lu_loop_inv S func (fun _ G _ s => R G s) (fun _ G _ s => R G s)) => //.
+- by move=> G P s i0 im Hi Him Hle; apply: Rswap.
+- by move=> G P s i0 f Hi; apply: Relim.
+Qed.
+End Loop1.
 
 
 (* ---------------------------------------------------------------- determinant facts *)
@@ -395,10 +502,11 @@ Qed.
 (* ---------------------------------------------------------------- LU path of solve *)
 Notation mx := (c02_mx absr n).
 
-Lemma inv0 S (R : 'M[F]_n -> S -> Prop) A s : wfm n A -> R 1%:M s -> inv R (mx A) 0 (A, s).
+Lemma inv0 S (Rx : 'M[F]_n -> 'M[F]_n -> S -> Prop) A s : wfm n A -> Rx 1%:M 1%:M s -> invg (mx A) Rx 0 (A, s).
 Proof.
-move=> wA Rs; split=> //; exists 1%:M; split=> //; first exact: unitmx1.
-by rewrite mul1mx; apply/matrixP => k j; rewrite !mxE.
+move=> wA Rs; split=> //; exists 1%:M, 1%:M; split=> //; first exact: unitmx1.
+  by rewrite mul1mx; apply/matrixP => k j; rewrite !mxE.
+by rewrite mulmx1; apply/matrixP => k j; rewrite !mxE.
 Qed.
 
 Lemma solve_unfold A b piv : (3 < n)%N -> wfm n A ->
@@ -417,17 +525,17 @@ by have -> : (n == 3)%N = false by lia.
 Qed.
 
 Lemma lu_Elim_inv A b piv : wfm n A -> size b = n ->
-  loop_post (R_Elim (cv b)) (mx A) piv 0 (c02_lu ops (c02_Elim ops) n piv A (mkseq (vget b) n)).
+  loop_post (fun _ G (_ : 'M[F]_n) s => R_Elim (cv b) G s) (mx A) piv 0 (c02_lu ops (c02_Elim ops) n piv A (mkseq (vget b) n)).
 Proof.
-move=> wA Hb; apply: (lu_loop_inv (@R_Elim_swap (cv b)) (@R_Elim_elim (cv b))) => //.
+move=> wA Hb; apply: (lu_loop_inv1 (@R_Elim_swap (cv b)) (@R_Elim_elim (cv b))) => //.
 apply: inv0 => //; split; first by rewrite size_mkseq.
 by rewrite mul1mx; apply/matrixP => k j; rewrite !mxE /c02_vget nth_mkseq.
 Qed.
 
-Lemma singular_det S (R : 'M[F]_n -> S -> Prop) A0 i st : (i < n)%N -> inv R A0 i st ->
+Lemma singular_det S (Rx : 'M[F]_n -> 'M[F]_n -> S -> Prop) A0 i st : (i < n)%N -> invg A0 Rx i st ->
   (forall k, (i <= k < n)%N -> get st.1 k i = 0) -> \det A0 = 0.
 Proof.
-move=> Hi [wA _ [G [uG UG _]]] Hz.
+move=> Hi [wA _ [G [P [uG UG _ _]]]] Hz.
 have : \det (Uv i st.1) = 0.
   apply: (det_deficient Hi) => k j Hk Hj; rewrite mxE.
   case: (altP (j =P i :> nat)) => [->|Hne]; first by rewrite ltnn /= Hz // Hk ltn_ord.
@@ -441,7 +549,7 @@ Theorem solve_lu_sound A b piv x : (3 < n)%N -> wfm n A -> size b = n ->
 Proof.
 move=> Hn wA Hb; rewrite solve_unfold //.
 have := lu_Elim_inv piv wA Hb.
-case: (c02_lu _ _ _ _ _ _) => [[A' rhs]|st|] //= [wA' Hd [G [uG UG [Hr Hc]]]].
+case: (c02_lu _ _ _ _ _ _) => [[A' rhs]|st|] //= [wA' Hd [G [P [uG UG _ [Hr Hc]]]]].
 case Hbs: (c02_backsolve _ _ _ _ _) => [x'|] // [<-].
 case: (backsolve_spec wA' (leqnn n) Hr Hbs) => H1 _ H3; split=> //.
 apply: (can_inj (mulKmx uG)); rewrite mulmxA -UG -Hc.
@@ -464,7 +572,7 @@ Theorem solve_lu_singular A b piv : (3 < n)%N -> wfm n A -> size b = n -> \det (
 Proof.
 move=> Hn wA Hb dA; rewrite solve_unfold //.
 have := lu_Elim_inv piv wA Hb.
-case: (c02_lu _ _ _ _ _ _) => [[A' rhs]|st|] //= [wA' Hd [G [uG UG _]]].
+case: (c02_lu _ _ _ _ _ _) => [[A' rhs]|st|] //= [wA' Hd [G [P [uG UG _ _]]]].
 have : \det (Uv n A') != 0.
   by rewrite det_Uv_full; apply/prodf_neq0 => k _; apply: Hd.
 by rewrite UG det_mulmx dA mulr0 eqxx.
@@ -483,14 +591,14 @@ move=> Hn [sA rA]; rewrite /c02_determinant /c02_rows /c02_cols sA rA ?eqbE ?eqx
 have -> : (n == 1)%N = false by lia.
 have -> : (n == 2)%N = false by lia.
 have -> : (n == 3)%N = false by lia.
-case: (c02_lu _ _ _ _ _ _) => [[A' sg]|[A' sg]|] //=; rewrite foldl_mulE ?mul0r //.
+case: (c02_lu _ _ _ _ _ _) => [[A' sg]|[A' sg]|] //=; rewrite foldl_mulE.
 by rewrite -(big_mkord xpredT (fun i => get A' i i)) /index_iota subn0.
 Qed.
 
 Lemma lu_Det_inv A piv : wfm n A ->
-  loop_post R_Det (mx A) piv 0 (c02_lu ops (c02_ElimDet ops) n piv A 1).
+  loop_post (fun _ G (_ : 'M[F]_n) s => R_Det G s) (mx A) piv 0 (c02_lu ops (c02_ElimDet ops) n piv A 1).
 Proof.
-move=> wA; apply: (lu_loop_inv R_Det_swap R_Det_elim) => //.
+move=> wA; apply: (lu_loop_inv1 R_Det_swap R_Det_elim) => //.
 by apply: inv0 => //; rewrite /R_Det det1 mulr1.
 Qed.
 
@@ -507,7 +615,7 @@ Proof.
 move=> Hn wA; rewrite det_unfold //.
 have := lu_Det_inv true wA.
 case: (c02_lu _ _ _ _ _ _) => [[A' sg]|[A' sg]|] //=.
-- move=> [wA' Hd [G [uG UG Hsg]]]; congr C02_Ok.
+- move=> [wA' Hd [G [P [uG UG _ Hsg]]]]; congr C02_Ok.
   by rewrite -det_Uv_full UG det_mulmx mulrA Hsg mul1r.
 - case=> i' Hi0 [Hinv _ Hz]; have Hi' : (i' < n)%N by lia.
   by rewrite (singular_det Hi' Hinv (Hz isT)).
@@ -518,7 +626,7 @@ Theorem det_lu_nopivot_ok A A' sg : (3 < n)%N -> wfm n A ->
   c02_determinant ops A false = C02_Ok (\det (mx A)).
 Proof.
 move=> Hn wA E; rewrite det_unfold //.
-have := lu_Det_inv false wA; rewrite E /= => -[wA' Hd [G [uG UG Hsg]]]; congr C02_Ok.
+have := lu_Det_inv false wA; rewrite E /= => -[wA' Hd [G [P [uG UG _ Hsg]]]]; congr C02_Ok.
 by rewrite -det_Uv_full UG det_mulmx mulrA Hsg mul1r.
 Qed.
 
